@@ -330,6 +330,46 @@ def c08_same_name_templates(layout: int, order: int) -> bool:
     return ok
 
 
+TID_LISTS = [
+    (["std::vector<double>", "std::vector<int>"], ["Vectordouble", "Vectorint"]),
+    (["ns::Cam<ns::CalA>", "ns::Cam<ns::CalB>", "ns::A"], ["CamCalA", "CamCalB", "A"]),
+    (["std::vector<double>", "other::vector<double>"], ["Vectordouble", "Vectordouble"]),
+    (["a::Point", "b::Point", "double"], ["Point", "Point", "Double"]),
+    (["std::map<int, ns::A>", "std::map<int, ns::B>", "std::map<string, ns::A>"], ["MapintA", "MapintB", "MapstringA"]),
+]
+
+
+def c08_template_id_lists(which: int, kind: int, nsdepth: int) -> bool:
+    """
+    An instantiation list whose entries share their (outer) name — two instantiations of one template, the same template
+    name in two namespaces, the same class name in two namespaces: each entry yields the instantiation named
+    Name + its flattened names (first letter capitalised, namespaces never part of the name), in list order.
+    pre: 0 <= which < len(TID_LISTS) and 0 <= kind <= 1 and 0 <= nsdepth <= 2
+    post: _
+    """
+    which, kind, nsdepth = pick(which, 0, len(TID_LISTS)), pick(kind, 0, 2), pick(nsdepth, 0, 3)
+    with concrete():
+        insts, sufs = TID_LISTS[which]
+        path = ("top", "mid")[:nsdepth]
+        decl = ("template<T = {%s}> class Tm { Tm(T t); };" if kind == 0 else "template<T = {%s}> double fn(const T& t);") % ", ".join(insts)
+        text = "".join("namespace %s { " % x for x in path) + decl + " }" * nsdepth
+        problems = []
+        try:
+            mod = ti.instantiate_namespace(parser.Module.parseString(text))
+            scope = mod
+            for n in path:
+                scope = [e for e in scope.content if isinstance(e, parser.Namespace) and e.name == n][0]
+            got = [e.name for e in scope.content]
+            want = [("Tm" if kind == 0 else "fn") + s for s in sufs]
+            if got != want:
+                problems.append("instantiations named %r, expected %r" % (got, want))
+        except Exception as ex:
+            problems.append("raised %r" % ex)
+        ok = not problems or _fail(text=text, problems=problems)
+    reached({"list": TID_LISTS[which][0], "kind": kind})
+    return ok
+
+
 def conds(tier):
     q = tier == "quick"
     t = (lambda x, y: x) if q else (lambda x, y: y)
@@ -339,6 +379,8 @@ def conds(tier):
                 bounds="1-3 class parameters x 0-%s instantiations each (third list %s) x 0-2 member-template parameters x 0-2 function-template parameters" % ("3" if not q else "2", "free, function-template list derived" if not q else "derived")),
         xh.Cond(M, "c08_typedefs", t(300, 1200), kind="shape-bounded", path_timeout=60, examples=["td_kind=1, td_place=2, p=2, nsdepth=1, l0=1", "td_kind=3, td_place=3, p=1, nsdepth=2, l0=0", "td_kind=2, td_place=0, p=1, nsdepth=0, l0=2"],
                 bounds="3 typedef targets x 4 placements x 1-2 parameters x namespace depth 0-2 x 0-2 enumerated instantiations"),
+        xh.Cond(M, "c08_template_id_lists", t(120, 600), kind="shape-bounded", examples=["which=0, kind=0, nsdepth=1", "which=1, kind=1, nsdepth=0", "which=3, kind=0, nsdepth=2", "which=4, kind=0, nsdepth=0"],
+                bounds="%d instantiation lists with shared outer names x class | function template x namespace depth 0-2" % len(TID_LISTS)),
         xh.Cond(M, "c08_same_name_templates", t(120, 600), kind="shape-bounded", examples=["layout=0, order=0", "layout=1, order=0", "layout=2, order=1", "layout=4, order=1"],
                 bounds="%d namespace layouts x 2 typedef orders" % len(SAME_LAYOUTS)),
         xh.Cond(M, "c08_typedef_outside", t(120, 600), kind="shape-bounded", examples=["kind=0, nsdepth=2, p=1, extra=0", "kind=1, nsdepth=1, p=1, extra=0", "kind=0, nsdepth=3, p=2, extra=3"],
